@@ -47,7 +47,7 @@ func init() {
 		Text: "in ecolumn's built-in filter, after the search for the constant among the declared values fails, a branch on the column's strict flag follows whose true edge returns a non-nil error before any bit is written or nil returned",
 		Run:  runR46})
 	register(&Rule{ID: "R18", Name: "BOUNDS", Floor: 1,
-		Text: "every re-slice of a row index whose bounds are int parameters of a public QFrame method is dominated by guards implying 0 <= low <= high <= length",
+		Text: "every re-slice of a row index whose bounds are int parameters of a public QFrame method is evaluated on a grid of (low, high) pairs around the boundaries of a frame of fixed length (branch conditions are decided from those concrete numbers): the re-slice instruction is reached exactly when 0 <= low <= high <= length - never for an out-of-range request, and no valid request is rejected",
 		Run:  runR18})
 	register(&Rule{ID: "R21", Name: "MAPCALL-GUARD", Floor: 15,
 		Text: "every dynamic call whose callee value comes from a map lookup uses the comma-ok form and is dominated by the ok edge (a missing key yields a nil function; calling it panics)",
@@ -55,7 +55,7 @@ func init() {
 	register(&Rule{ID: "R22", Name: "TYPEASSERT", Floor: 1,
 		Text: "the set of non-comma-ok type assertions in scope equals the frozen list (each on a value the function itself produced)",
 		Run:  runR22})
-	register(&Rule{ID: "R23", Name: "PANIC-SITES", Floor: 3,
+	register(&Rule{ID: "R23", Name: "PANIC-SITES", Floor: 6,
 		Text: "the set of functions containing an explicit panic equals the frozen, documented list",
 		Run:  runR23})
 	register(&Rule{ID: "R34", Name: "CARD-GUARD", Floor: 2,
@@ -209,11 +209,11 @@ func runR8(c *Ctx) {
 
 func isEntriesSlice(t types.Type) bool {
 	s, ok := t.Underlying().(*types.Slice)
-	if !ok {
+	if !ok || curProg == nil {
 		return false
 	}
-	n, ok := s.Elem().(*types.Named)
-	return ok && n.Obj().Name() == "tableEntry"
+	es := entryStruct(curProg)
+	return es != nil && types.Identical(s.Elem(), es)
 }
 
 func indexBaseOfPos(v ssa.Value) ssa.Value {
@@ -435,7 +435,7 @@ func runR11(c *Ctx) {
 			}
 			cond, _ := unNot(iff.Cond, true)
 			if fld, x := fieldOf(cond); fld != nil {
-				if nt, ok := deref(x.Type()).(*types.Named); ok && nt.Obj().Name() == "tableEntry" {
+				if nt, ok := deref(x.Type()).(*types.Named); ok && entryStruct(p) != nil && types.Identical(nt, entryStruct(p)) {
 					if b, ok := fld.Type().Underlying().(*types.Basic); ok && b.Kind() == types.Bool {
 						occIf = iff
 					}
@@ -476,6 +476,17 @@ func runR11(c *Ctx) {
 					continue
 				}
 				selBlocks = append(selBlocks, li.header.Preds[i])
+			}
+		}
+		// break form: the probe loop is left directly once an entry has been chosen
+		for _, b := range fn.Blocks {
+			if !inLoop(*li, b) || b == li.header {
+				continue
+			}
+			for _, s := range b.Succs {
+				if !inLoop(*li, s) {
+					selBlocks = append(selBlocks, s)
+				}
 			}
 		}
 		if len(selBlocks) == 0 {
@@ -771,15 +782,34 @@ func stripConvAll(v ssa.Value) ssa.Value {
 
 // ---------- R39 ----------
 
-// isValidator: fn returns error and contains a comma-ok lookup in a column map whose miss edge returns.
-func isValidator(p *Prog, fn *ssa.Function) bool {
-	if fn == nil || fn.Blocks == nil || errResultIndex(fn.Signature) < 0 || fn.Signature.Results().Len() != 1 {
+// isValidator: fn has an error result and contains a comma-ok lookup in a column map (or calls such a
+// function): checkColumns, lookupColumn-style helpers.
+func isValidator(p *Prog, fn *ssa.Function) bool { return isValidatorD(p, fn, 0) }
+
+func isValidatorD(p *Prog, fn *ssa.Function, d int) bool {
+	if fn == nil || fn.Blocks == nil || d > 3 || errResultIndex(fn.Signature) < 0 {
 		return false
+	}
+	if fn.Pkg == nil || fn.Pkg.Pkg.Path() != modPath {
+		return false
+	}
+	// a validator is a small helper: it takes names, not filters/expressions, and returns no frame
+	for i := 0; i < fn.Signature.Results().Len(); i++ {
+		if isFrameType(fn.Signature.Results().At(i).Type()) {
+			return false
+		}
 	}
 	found := false
 	eachInstr(fn, func(in ssa.Instruction) {
-		if lk, ok := in.(*ssa.Lookup); ok && lk.CommaOk && isNamedColumnContainer(p, lk.X.Type()) {
-			found = true
+		switch t := in.(type) {
+		case *ssa.Lookup:
+			if t.CommaOk && isNamedColumnContainer(p, t.X.Type()) {
+				found = true
+			}
+		case *ssa.Call:
+			if callee := t.Call.StaticCallee(); callee != nil && callee != fn && isValidatorD(p, callee, d+1) {
+				found = true
+			}
 		}
 	})
 	return found
@@ -853,11 +883,26 @@ func runR39(c *Ctx) {
 				if callee == nil || !isValidator(p, callee) {
 					return
 				}
-				for _, r := range *t.Referrers() {
-					b, ok := r.(*ssa.BinOp)
-					if !ok {
-						continue
+				var errVals []ssa.Value
+				if callee.Signature.Results().Len() == 1 {
+					errVals = []ssa.Value{t}
+				} else {
+					ei := errResultIndex(callee.Signature)
+					for _, r := range *t.Referrers() {
+						if ex, ok := r.(*ssa.Extract); ok && ex.Index == ei {
+							errVals = append(errVals, ex)
+						}
 					}
+				}
+				var cmps []*ssa.BinOp
+				for _, ev := range errVals {
+					for _, r := range *ev.Referrers() {
+						if b, ok := r.(*ssa.BinOp); ok {
+							cmps = append(cmps, b)
+						}
+					}
+				}
+				for _, b := range cmps {
 					for _, r2 := range *b.Referrers() {
 						if iff, ok := r2.(*ssa.If); ok {
 							okIdx := 1 // err != nil -> succ0 ; ok path = succ1
@@ -948,7 +993,7 @@ func returnsErrFrame(r *ssa.Return) bool {
 			}
 		}
 		if call, ok := v.(*ssa.Call); ok {
-			if o := calleeObj(call); o != nil && o.Name() == "withErr" {
+			if o := calleeObj(call); o != nil && curProg != nil && curProg.isErrSetter(o) {
 				return true
 			}
 		}
@@ -1340,59 +1385,55 @@ func runR46(c *Ctx) {
 	p := c.P
 	fn := p.anchorEnumBuiltInFilter()
 	if fn == nil {
-		c.undecided("anchor|filterBuiltIn", "-", "ecolumn.Column.filterBuiltIn not found")
+		c.undecided("anchor|enum built-in filter", "-", "the ecolumn method that resolves a filter constant against the declared values was not found")
 		return
 	}
-	n := 0
-	for _, li := range loopsOf(fn) {
-		if li.base == nil {
-			continue
+	key := fname(fn) + "|constant not among declared values"
+	// (1) a branch on the strict flag whose true edge returns a non-nil error
+	var strictIf *ssa.If
+	strictTrue := 0
+	eachInstr(fn, func(in ssa.Instruction) {
+		iff, ok := in.(*ssa.If)
+		if !ok {
+			return
 		}
-		if fld, _ := fieldOf(li.base); fld == nil || fld.Name() != "values" {
-			continue
+		cond, val := unNot(iff.Cond, true)
+		if fld, _ := fieldOf(cond); fld == nil || fld.Name() != "strict" {
+			return
 		}
-		n++
-		key := fname(fn) + "|constant not among declared values"
-		var exit *ssa.BasicBlock
-		for _, s := range li.header.Succs {
-			if !inLoop(li, s) {
-				exit = s
-			}
+		ti := 0
+		if !val {
+			ti = 1
 		}
-		if exit == nil {
-			c.undecided(key, p.pos(fn.Pos()), "loop exit not found")
-			continue
+		tb := iff.Block().Succs[ti]
+		if ret, ok := tb.Instrs[len(tb.Instrs)-1].(*ssa.Return); ok && !returnsNilError(ret) {
+			strictIf, strictTrue = iff, ti
 		}
-		iff, ok := exit.Instrs[len(exit.Instrs)-1].(*ssa.If)
-		good := false
-		if ok {
-			cond, val := unNot(iff.Cond, true)
-			if fld, _ := fieldOf(cond); fld != nil && fld.Name() == "strict" {
-				tb := exit.Succs[0]
-				if !val {
-					tb = exit.Succs[1]
-				}
-				if ret, ok := tb.Instrs[len(tb.Instrs)-1].(*ssa.Return); ok && !returnsNilError(ret) {
-					good = true
-				}
-			}
-		}
-		// nothing may be written before the strict test
-		for _, in := range exit.Instrs {
-			if st, ok := in.(*ssa.Store); ok {
-				if ia, ok := st.Addr.(*ssa.IndexAddr); ok && boolIdxBase(ia.X) {
-					good = false
-				}
-			}
-		}
-		if good {
-			c.ok(key, p.instrPos(iff), "strict columns return an error when the filter constant is not a declared value")
-		} else {
-			c.bad(key, p.pos(exit.Instrs[0].Pos()), "after the search for the constant fails there is no strict test returning an error first: filtering a strict enum against an undeclared value is silently accepted")
-		}
+	})
+	if strictIf == nil {
+		c.bad(key, p.pos(fn.Pos()), "no branch on the column's strict flag returns an error: filtering a strict (declared) enum against an undeclared value is silently accepted")
+		return
 	}
-	if n == 0 {
-		c.undecided(fname(fn)+"|value search", p.pos(fn.Pos()), "no loop over the values table found")
+	// (2) every write into the boolean index made by this function itself (the `!=` shortcut that marks
+	// all rows) happens only after the strict test failed
+	bad := ""
+	eachInstr(fn, func(in ssa.Instruction) {
+		st, ok := in.(*ssa.Store)
+		if !ok {
+			return
+		}
+		ia, ok := st.Addr.(*ssa.IndexAddr)
+		if !ok || !boolIdxBase(ia.X) {
+			return
+		}
+		if !edgeDominates(strictIf.Block(), 1-strictTrue, st.Block()) {
+			bad = p.instrPos(st)
+		}
+	})
+	if bad != "" {
+		c.bad(key, p.instrPos(strictIf), fmt.Sprintf("the boolean index is written at %s on a path that has not passed the strict test: for a strict enum an undeclared filter value selects rows instead of being an error", bad))
+	} else {
+		c.ok(key, p.instrPos(strictIf), "strict columns return an error when the filter constant is not a declared value, before any row is marked")
 	}
 }
 
@@ -1400,99 +1441,139 @@ func runR46(c *Ctx) {
 
 func runR18(c *Ctx) {
 	p := c.P
+	const frameLen = 10
+	grid := []int64{-2, -1, 0, 1, 5, 9, 10, 11}
 	for _, fn := range p.FuncsIn("") {
 		obj, ok := fn.Object().(*types.Func)
 		if !ok || !obj.Exported() {
 			continue
 		}
+		var sl *ssa.Slice
 		eachInstr(fn, func(in ssa.Instruction) {
-			sl, ok := in.(*ssa.Slice)
-			if !ok || !isIntIndexType(stripSliceOps(sl.X).Type()) {
-				return
-			}
-			lo, _ := sl.Low.(*ssa.Parameter)
-			hi, _ := sl.High.(*ssa.Parameter)
-			if lo == nil && hi == nil {
-				return
-			}
-			key := fname(fn) + "|index re-slice"
-			var facts []string
-			has := func(x, y ssa.Value, strictOK bool) bool {
-				// x <= y implied by a dominating guard: (x > y) false, (y < x) false, (x <= y) true, (y >= x) true
-				for _, g := range dominatingGuards(sl.Block()) {
-					cmp, ok := g.Cond.(*ssa.BinOp)
-					if !ok {
-						continue
-					}
-					match := func(a, b ssa.Value) bool { return sameVal(cmp.X, a) && sameVal(cmp.Y, b) }
-					switch {
-					case match(x, y) && (cmp.Op == token.GTR && !g.Val || cmp.Op == token.LEQ && g.Val || cmp.Op == token.LSS && g.Val):
-						return true
-					case match(y, x) && (cmp.Op == token.LSS && !g.Val || cmp.Op == token.GEQ && g.Val || cmp.Op == token.GTR && g.Val):
-						return true
-					}
+			if s, ok := in.(*ssa.Slice); ok && isIntIndexType(stripSliceOps(s.X).Type()) {
+				_, lo := s.Low.(*ssa.Parameter)
+				_, hi := s.High.(*ssa.Parameter)
+				if lo || hi {
+					sl = s
 				}
-				return false
-			}
-			okAll := true
-			if lo != nil {
-				zero := ssa.Value(nil)
-				// 0 <= lo
-				nonneg := false
-				for _, g := range dominatingGuards(sl.Block()) {
-					if cmp, ok := g.Cond.(*ssa.BinOp); ok && cmp.X == ssa.Value(lo) {
-						if k, isK := constInt(cmp.Y); isK && k == 0 && (cmp.Op == token.LSS && !g.Val || cmp.Op == token.GEQ && g.Val) {
-							nonneg = true
-						}
-					}
-				}
-				_ = zero
-				if nonneg {
-					facts = append(facts, "0 <= low")
-				} else {
-					okAll = false
-					facts = append(facts, "MISSING 0 <= low")
-				}
-			}
-			if lo != nil && hi != nil {
-				if has(lo, hi, true) {
-					facts = append(facts, "low <= high")
-				} else {
-					okAll = false
-					facts = append(facts, "MISSING low <= high")
-				}
-			}
-			if hi != nil {
-				// hi <= len: compare with Len()/len() of the frame
-				found := false
-				for _, g := range dominatingGuards(sl.Block()) {
-					cmp, ok := g.Cond.(*ssa.BinOp)
-					if !ok || cmp.X != ssa.Value(hi) {
-						continue
-					}
-					if call, ok := cmp.Y.(*ssa.Call); ok {
-						isLen := builtinName(call) == "len"
-						if o := calleeObj(call); o != nil && o.Name() == "Len" {
-							isLen = true
-						}
-						if isLen && (cmp.Op == token.GTR && !g.Val || cmp.Op == token.LEQ && g.Val) {
-							found = true
-						}
-					}
-				}
-				if found {
-					facts = append(facts, "high <= length")
-				} else {
-					okAll = false
-					facts = append(facts, "MISSING high <= length")
-				}
-			}
-			if okAll {
-				c.ok(key, p.instrPos(sl), strings.Join(facts, ", "))
-			} else {
-				c.bad(key, p.instrPos(sl), "re-slice of the row index with caller-supplied bounds is not fully guarded ("+strings.Join(facts, ", ")+"): out-of-range requests panic or expose rows beyond the frame")
 			}
 		})
+		if sl == nil {
+			continue
+		}
+		lo, _ := sl.Low.(*ssa.Parameter)
+		hi, _ := sl.High.(*ssa.Parameter)
+		key := fname(fn) + "|index re-slice"
+		var bad []string
+		undec := ""
+		nRuns := 0
+		for _, a := range grid {
+			for _, b := range grid {
+				if lo == nil && a != 0 || hi == nil && b != frameLen {
+					continue
+				}
+				nRuns++
+				executed := false
+				pe := &pathExec{fn: fn}
+				pe.onInstr = func(pe *pathExec, in ssa.Instruction) {
+					if in == ssa.Instruction(sl) {
+						executed = true
+					}
+				}
+				pe.lenOf = func(*ssa.Call) (int64, bool) { return frameLen, true }
+				pe.intHook = func(v ssa.Value) (int64, bool) {
+					switch t := v.(type) {
+					case *ssa.Parameter:
+						if t == lo {
+							return a, true
+						}
+						if t == hi {
+							return b, true
+						}
+					case *ssa.Call:
+						if o := calleeObj(t); o != nil && o.Name() == "Len" && o.Type().(*types.Signature).Params().Len() == 0 {
+							return frameLen, true
+						}
+					}
+					return 0, false
+				}
+				pe.oracle = func(pe *pathExec, cond ssa.Value) (bool, bool) {
+					return pe.evalBool(cond, func(x ssa.Value) (bool, bool) {
+						bo, ok := x.(*ssa.BinOp)
+						if !ok {
+							return false, false
+						}
+						// receiver not errored
+						for _, o := range []ssa.Value{bo.X, bo.Y} {
+							if fieldNameOfLoad(o) == "Err" {
+								return bo.Op == token.NEQ == false, true
+							}
+						}
+						if l, ok1 := pe.intOf(bo.X, 0); ok1 {
+							if r, ok2 := pe.intOf(bo.Y, 0); ok2 {
+								switch bo.Op {
+								case token.LSS:
+									return l < r, true
+								case token.LEQ:
+									return l <= r, true
+								case token.GTR:
+									return l > r, true
+								case token.GEQ:
+									return l >= r, true
+								case token.EQL:
+									return l == r, true
+								case token.NEQ:
+									return l != r, true
+								}
+							}
+						}
+						// comparison of (resolved) constant strings, e.g. an error reason chosen by a switch
+						if ls, ok1 := constString(pe.resolve(bo.X)); ok1 {
+							if rs, ok2 := constString(pe.resolve(bo.Y)); ok2 {
+								return (ls == rs) == (bo.Op == token.EQL), true
+							}
+						}
+						// nil tests of locally chosen values (an error variable set in a switch)
+						if cst, ok := bo.Y.(*ssa.Const); ok && cst.IsNil() {
+							r := pe.resolve(bo.X)
+							if rc, ok := r.(*ssa.Const); ok {
+								return rc.IsNil() == (bo.Op == token.EQL), true
+							}
+							if _, isCall := r.(*ssa.Call); isCall {
+								return bo.Op == token.NEQ, true // a constructed error value
+							}
+							if _, isMI := r.(*ssa.MakeInterface); isMI {
+								return bo.Op == token.NEQ, true
+							}
+						}
+						return false, false
+					})
+				}
+				end, why := pe.run()
+				if end == nil {
+					undec = fmt.Sprintf("low=%d high=%d: %s", a, b, why)
+					continue
+				}
+				valid := 0 <= a && a <= b && b <= frameLen
+				if executed && !valid {
+					bad = append(bad, fmt.Sprintf("low=%d high=%d (frame of %d rows) reaches the re-slice", a, b, frameLen))
+				}
+				if !executed && valid {
+					bad = append(bad, fmt.Sprintf("the valid request low=%d high=%d (frame of %d rows) is rejected", a, b, frameLen))
+				}
+			}
+		}
+		switch {
+		case len(bad) > 0:
+			if len(bad) > 3 {
+				bad = append(bad[:3], fmt.Sprintf("... and %d more", len(bad)-3))
+			}
+			c.bad(key, p.instrPos(sl), "re-slice of the row index with caller-supplied bounds is not guarded exactly by 0 <= low <= high <= length: "+strings.Join(bad, "; "))
+		case undec != "":
+			c.undecided(key, p.instrPos(sl), "cannot evaluate the bounds checks: "+undec)
+		default:
+			c.ok(key, p.instrPos(sl), fmt.Sprintf("%d (low, high) pairs around the boundaries evaluated on a frame of %d rows: the re-slice is reached exactly for 0 <= low <= high <= length", nRuns, frameLen))
+		}
 	}
 }
 
@@ -1580,71 +1661,75 @@ func lookupGuarded(v ssa.Value, at *ssa.BasicBlock, d int) (bool, *ssa.Lookup, s
 
 // ---------- R22 / R23 ----------
 
-var r22Frozen = map[string]string{
-	"internal/io/sql.ReadSQL|*sql.Column": "asserts the scan targets the function allocated itself a few lines above",
+// Frozen sets are keyed by package and kind, not by function name: renaming or moving the function
+// that holds a documented panic does not matter; adding a new panic site does.
+var r22Allowed = map[string]int{
+	"internal/io/sql": 1, // ReadSQL asserts the scan targets it allocated itself a few lines above
 }
 
 func runR22(c *Ctx) {
 	p := c.P
-	seen := map[string]bool{}
+	count := map[string][]string{}
 	for _, fn := range p.Funcs {
 		eachInstr(fn, func(in ssa.Instruction) {
 			ta, ok := in.(*ssa.TypeAssert)
 			if !ok || ta.CommaOk {
 				return
 			}
-			id := fname(fn) + "|" + types.TypeString(ta.AssertedType, shortQual)
-			key := id + "|single-result type assertion"
-			if why, ok := r22Frozen[id]; ok {
-				seen[id] = true
-				c.ok(key, p.instrPos(ta), "frozen: "+why)
-			} else {
-				c.bad(key, p.instrPos(ta), "a single-result type assertion on a dynamically typed value panics when the type differs; invalid use must be reported through Err")
-			}
+			pk := strings.TrimPrefix(strings.TrimPrefix(fn.Pkg.Pkg.Path(), modPath), "/")
+			count[pk] = append(count[pk], p.instrPos(ta)+" in "+fname(fn)+" ("+types.TypeString(ta.AssertedType, shortQual)+")")
 		})
 	}
-	for id := range r22Frozen {
-		if !seen[id] {
-			c.note("frozen entry no longer present", id)
+	seen := false
+	for pk, sites := range count {
+		seen = true
+		key := pk + "|single-result type assertions"
+		if len(sites) <= r22Allowed[pk] {
+			c.ok(key, strings.Fields(sites[0])[0], fmt.Sprintf("%d site(s), within the frozen allowance for this package: %s", len(sites), strings.Join(sites, "; ")))
+		} else {
+			c.bad(key, strings.Fields(sites[0])[0], fmt.Sprintf("%d single-result type assertions where %d are accepted: a single-result assertion on a dynamically typed value panics when the type differs; invalid use must be reported through Err (%s)", len(sites), r22Allowed[pk], strings.Join(sites, "; ")))
 		}
 	}
-	if len(seen) == 0 {
+	if !seen {
 		c.okTrivial("module|no single-result assertion", "-", "none in scope")
 	}
 }
 
-var r23Frozen = map[string]string{
-	"(qframe.QFrame).MustBoolView":   "documented: Must*View panics on error",
-	"(qframe.QFrame).MustEnumView":   "documented: Must*View panics on error",
-	"(qframe.QFrame).MustFloatView":  "documented: Must*View panics on error",
-	"(qframe.QFrame).MustIntView":    "documented: Must*View panics on error",
-	"(qframe.QFrame).MustStringView": "documented: Must*View panics on error",
-	"qframe.tempColName":             "10,000 colliding temporary names; unreachable in practice",
-	"internal/ryu.assert":            "internal invariant of the float formatter",
-}
+// documented / accepted explicit panics per package: root package: the five exported Must*View
+// accessors (documented) plus one helper (10,000 colliding temporary names, unreachable in practice);
+// internal/ryu: one internal assertion helper.
+var r23Allowed = map[string]int{"": 1, "internal/ryu": 1}
 
 func runR23(c *Ctx) {
 	p := c.P
+	other := map[string][]string{}
 	for _, fn := range p.Funcs {
-		has := false
 		var at ssa.Instruction
 		eachInstr(fn, func(in ssa.Instruction) {
 			if pn, ok := in.(*ssa.Panic); ok {
-				has, at = true, pn
+				at = pn
 			}
 		})
-		if !has {
+		if at == nil {
 			continue
 		}
 		id := fname(fn)
-		// generators are development tools
 		if strings.Contains(id, "Generate") || strings.HasSuffix(fn.Pkg.Pkg.Path(), "/generator") {
+			continue // development tools
+		}
+		pk := strings.TrimPrefix(strings.TrimPrefix(fn.Pkg.Pkg.Path(), modPath), "/")
+		if obj, ok := fn.Object().(*types.Func); ok && obj.Exported() && strings.HasPrefix(obj.Name(), "Must") && pk == "" {
+			c.ok(id+"|explicit panic", p.instrPos(at), "documented: Must* accessors panic on error")
 			continue
 		}
-		if why, ok := r23Frozen[id]; ok {
-			c.ok(id+"|explicit panic", p.instrPos(at), "frozen: "+why)
+		other[pk] = append(other[pk], p.instrPos(at)+" in "+id)
+	}
+	for pk, sites := range other {
+		key := pk + "|explicit panics outside Must*"
+		if len(sites) <= r23Allowed[pk] {
+			c.ok(key, strings.Fields(sites[0])[0], fmt.Sprintf("%d site(s), within the frozen allowance: %s", len(sites), strings.Join(sites, "; ")))
 		} else {
-			c.bad(id+"|explicit panic", p.instrPos(at), "an explicit panic outside the documented list: invalid use must yield Err, never a panic")
+			c.bad(key, strings.Fields(sites[0])[0], fmt.Sprintf("%d explicit panic sites where %d are accepted (%s): invalid use must yield Err, never a panic", len(sites), r23Allowed[pk], strings.Join(sites, "; ")))
 		}
 	}
 }
